@@ -94,19 +94,21 @@ def handleSheets (op : String) (j : Json) : Except String Json := do
   | "sheets.readjson" => do
       let c ← j.getObjVal? "content"
       let c ← jcontentOfJ c
-      pure (exceptSheetJ (readJson [] c))
+      pure (exceptSheetJ (readJsonSheet [] c))
   | "sheets.readcsv" => do
       let r ← j.getObjVal? "records"
       let r ← gridOfJ r
-      pure (exceptSheetJ (readCsv [] r))
+      pure (exceptSheetJ (readCsvSheet [] r))
   | "sheets.all" => do
       -- one sheet through every modelled path
       let s ← sheetOfJ j
       pure (Json.mkObj [
         ("tojson", jcontentJ (toJson s)),
-        ("json", exceptSheetJ (readJson s.name (toJson s))),
+        -- what `convert` writes for the sheet: `to_json` of what the source's reader delivered
+        ("convert", jcontentJ (toJson s.omitEmpty)),
+        ("json", exceptSheetJ (readJsonSheet s.name (toJson s))),
         ("xlsx", xtableJ (xlsxSanitize (toXlsxGrid s))),
-        ("csv", exceptSheetJ (readCsv s.name (toCsvRecords s)))])
+        ("csv", exceptSheetJ (readCsvSheet s.name (toCsvRecords s)))])
   | _ => throw s!"unknown op {op}"
 
 end Rpft.Drv.SheetsD
